@@ -255,7 +255,7 @@ static void runAll(Rng & rng, const Gen & G, const std::string & tier) {
     }
 }
 
-long verif::verif_ncases(const std::string & tier) { return tier == "thorough" ? 2500 : 120; }
+long verif::verif_ncases(const std::string & tier) { return tier == "thorough" ? 1500 : 160; }
 
 // hand-written low-index cases
 static Gen fixedCase(long idx) {
